@@ -83,7 +83,9 @@ func (h *statusSessionHandler) HandlePacket(pc *proto.PacketContext) {
 var versionName = fmt.Sprintf("Gate %s", version.SupportedVersionsString)
 
 func newInitialPing(p *Proxy, protocol proto.Protocol) *ping.ServerPing {
-	if !version.Protocol(protocol).Supported() {
+	// Advertise the client's protocol only if it is one we actually support,
+	// otherwise our newest one (like vanilla and Velocity do).
+	if v, ok := version.ProtocolToVersion[protocol]; !ok || v == version.Unknown || v == version.Legacy {
 		protocol = version.MaximumVersion.Protocol
 	}
 	var modInfo *modinfo.ModInfo
@@ -119,7 +121,10 @@ func (h *statusSessionHandler) handleStatusRequest(pc *proto.PacketContext) {
 
 	log := h.log
 	if h.resolvePingResponse == nil {
-		e.ping = newInitialPing(h.proxy, pc.Protocol)
+		// Use the protocol the client announced in its handshake. The status
+		// packet context carries the protocol of the (fallback) packet registry,
+		// which is the lowest supported version for unknown clients.
+		e.ping = newInitialPing(h.proxy, h.conn.Protocol())
 	} else {
 		var err error
 		var res *packet.StatusResponse
